@@ -68,7 +68,7 @@ PROPS["C16"] = dict(
 )
 
 PROPS["C19"] = dict(
-    modules=["contracts.C19_status", "contracts.C06_clean"],
+    modules=["contracts.C19_status", "contracts.C11_need", "contracts.C19_targets", "contracts.C06_clean"],
     decided=["flag logic of report_unbuilt and its helpers (FAILED, PENDING, DRAINED, WARNING bits) against the "
              "property's sentence", "Builder.finalize stores the code", "TUI status translation keeps every reported bit",
              "classification of glob violations"],
@@ -285,7 +285,7 @@ PROPS["C07"] = dict(
 
 PROPS["C11"] = dict(
     modules=["contracts.sched_sql", "contracts.C12_limits", "contracts.C10_dispatch", "contracts.C06_clean",
-             "contracts.C18_under", "contracts.C11_need", "contracts.C11_bounded"],
+             "contracts.C18_under", "contracts.C11_need", "contracts.C19_targets", "contracts.C11_bounded"],
     decided=["the recomputation statement sets the cached need to max(declared need, TARGET elevation, needs of the attached "
              "consuming steps), with the elevation exactly as the property states (exact file target on a regular output; "
              "DEFAULT step with a regular output under a directory target)", "the dispatch query requires the cached need "
